@@ -26,7 +26,7 @@ EXPLANATION = (
     "AST); the h2 state machine, the priority tree, the reactor, the transport and the body producers are small synchronous checker models.  Decided by running "
     "finite schedules and comparing with an oracle: (a) one turn of _sendPrioritisedData for every chunk length 0..6, max frame size 0..4 and window -3..4: at most "
     "one DATA frame, never longer than min(max frame, window), `sent + requeued-at-the-front` is the chunk, END_STREAM only for the sentinel; the negative-window "
-    "cases are the known finding F29; (b) the loop always continues: after a data / end-of-stream turn it re-schedules itself once, on deadlock it parks on a fresh "
+    "cases were F29 (fixed: the bound is floored at zero; the revert is a mutant); (b) the loop always continues: after a data / end-of-stream turn it re-schedules itself once, on deadlock it parks on a fresh "
     "Deferred that re-enters it, behind a paused transport it waits on _consumerBlocked, after stopProducing it stops; (c) whole-response schedules over one and two "
     "streams, windows smaller than the body, stream- and connection-level WINDOW_UPDATEs in several orders, bodies written through H2Stream.write / writeSequence by "
     "push producers: every byte arrives once, in order, END_STREAM last, no frame exceeds a window, a parked loop is woken by new data, producers are paused when "
@@ -293,7 +293,14 @@ def _s_window_guards(ctx):
         """min(.., max_outbound_frame_size, .., window(stream), ..), possibly floored at zero: max(0, <that>) (an empty frame is never sent)"""
         if isinstance(e, ast.Call) and isinstance(e.func, ast.Name) and not e.keywords:
             if e.func.id == "min":
-                parts = [src(a) for a in e.args]
+                def floored(a):          # the window itself may carry the zero floor: max(window, 0)
+                    if isinstance(a, ast.Call) and isinstance(a.func, ast.Name) and a.func.id == "max" and len(a.args) == 2 and not a.keywords:
+                        z = [x for x in a.args if isinstance(x, ast.Constant) and x.value == 0 and not isinstance(x.value, bool)]
+                        r = [x for x in a.args if x not in z]
+                        if len(z) == 1 and len(r) == 1:
+                            return src(r[0])
+                    return src(a)
+                parts = [floored(a) for a in e.args]
                 return "self.conn.max_outbound_frame_size" in parts and "self.conn.local_flow_control_window(stream)" in parts
             if e.func.id == "max" and len(e.args) == 2:
                 zero = [a for a in e.args if isinstance(a, ast.Constant) and a.value == 0 and not isinstance(a.value, bool)]
@@ -774,7 +781,11 @@ def _unblock_sites(ctx):
 
 MUTANTS = [
     Mutant("clamp-dropped", H2, "            if len(frameData) > maxFrameSize:\n                excessData = frameData[maxFrameSize:]\n                frameData = frameData[:maxFrameSize]\n                self._outboundStreamQueues[stream].appendleft(excessData)\n", ""),
-    Mutant("clamp-ignores-window", H2, "        maxFrameSize = min(self.conn.max_outbound_frame_size, remainingWindow)", "        maxFrameSize = self.conn.max_outbound_frame_size"),
+    Mutant("clamp-ignores-window", H2, "        maxFrameSize = max(\n            0, min(self.conn.max_outbound_frame_size, remainingWindow)\n        )", "        maxFrameSize = self.conn.max_outbound_frame_size"),
+    Mutant("revert-F29-negative-window-not-floored", H2, "        maxFrameSize = max(\n            0, min(self.conn.max_outbound_frame_size, remainingWindow)\n        )",
+           "        maxFrameSize = min(self.conn.max_outbound_frame_size, remainingWindow)", expect_rule="clamp/negative-window"),
+    Mutant("window-floor-of-one", H2, "        maxFrameSize = max(\n            0, min(self.conn.max_outbound_frame_size, remainingWindow)\n        )",
+           "        maxFrameSize = max(\n            1, min(self.conn.max_outbound_frame_size, remainingWindow)\n        )"),
     Mutant("clamp-off-by-one", H2, "                frameData = frameData[:maxFrameSize]\n", "                frameData = frameData[: maxFrameSize + 1]\n"),
     Mutant("excess-requeued-at-back", H2, "                self._outboundStreamQueues[stream].appendleft(excessData)", "                self._outboundStreamQueues[stream].append(excessData)"),
     Mutant("excess-overlaps", H2, "                excessData = frameData[maxFrameSize:]\n", "                excessData = frameData[maxFrameSize - 1 :]\n"),
@@ -808,6 +819,8 @@ SILENT = [
            "                cut = max(maxFrameSize, 0)\n                frameData, excessData = frameData[:cut], frameData[cut:]\n                self._outboundStreamQueues[stream].appendleft(excessData)\n"),
     Silent("clamp-slices-swapped-order", H2, "                excessData = frameData[maxFrameSize:]\n                frameData = frameData[:maxFrameSize]\n                self._outboundStreamQueues[stream].appendleft(excessData)\n",
            "                self._outboundStreamQueues[stream].appendleft(frameData[maxFrameSize:])\n                frameData = frameData[:maxFrameSize]\n"),
+    Silent("zero-floor-on-the-window-operand", H2, "        maxFrameSize = max(\n            0, min(self.conn.max_outbound_frame_size, remainingWindow)\n        )",
+           "        maxFrameSize = min(self.conn.max_outbound_frame_size, max(remainingWindow, 0))"),
     Silent("window-test-flipped", H2, "        if not remainingWindow > 0:\n            return\n", "        if remainingWindow <= 0:\n            return\n"),
     Silent("blocked-test-flipped", H2, "        if self.remainingOutboundWindow(streamID) <= 0:\n            self.streams[streamID].flowControlBlocked()", "        if not self.remainingOutboundWindow(streamID) > 0:\n            self.streams[streamID].flowControlBlocked()"),
     Silent("rename-wakeup-local", H2, "        self.priority.unblock(streamID)\n        if self._sendingDeferred is not None:\n            d = self._sendingDeferred\n            self._sendingDeferred = None\n            d.callback(streamID)\n\n    def abortRequest",
